@@ -29,6 +29,34 @@ type Edit struct {
 	File string `json:"file"`
 	Old  string `json:"old"`
 	New  string `json:"new"`
+	// Nth > 0: Old occurs several times (sibling functions); replace the Nth occurrence (1-based), Of occurrences expected
+	Nth int `json:"nth,omitempty"`
+	Of  int `json:"of,omitempty"`
+}
+
+func (e Edit) applicable(text string) bool {
+	n := strings.Count(text, e.Old)
+	if e.Nth > 0 {
+		return n == e.Of && e.Nth <= n
+	}
+	return n == 1
+}
+
+func (e Edit) apply(text string) string {
+	if e.Nth <= 1 {
+		return strings.Replace(text, e.Old, e.New, 1)
+	}
+	idx := -1
+	from := 0
+	for k := 0; k < e.Nth; k++ {
+		i := strings.Index(text[from:], e.Old)
+		if i < 0 {
+			return text
+		}
+		idx = from + i
+		from = idx + len(e.Old)
+	}
+	return text[:idx] + e.New + text[idx+len(e.Old):]
 }
 
 // ControlResult is recorded in the evidence.
@@ -126,7 +154,7 @@ func runControl(prop, repo string, ctl Control, base map[string]bool) (res Contr
 	// check applicability first
 	for _, e := range ctl.Edits {
 		b, err := os.ReadFile(filepath.Join(repo, e.File))
-		if err != nil || strings.Count(string(b), e.Old) != 1 {
+		if err != nil || !e.applicable(string(b)) {
 			res.Status = "skipped"
 			res.Detail = "the anchored text of " + e.File + " is not present exactly once in the current tree (file edited): control not applicable"
 			return
@@ -148,7 +176,7 @@ func runControl(prop, repo string, ctl Control, base map[string]bool) (res Contr
 	for _, e := range ctl.Edits {
 		p := filepath.Join(scratch, e.File)
 		b, _ := os.ReadFile(p)
-		os.WriteFile(p, []byte(strings.Replace(string(b), e.Old, e.New, 1)), 0o644)
+		os.WriteFile(p, []byte(e.apply(string(b))), 0o644)
 	}
 	rep := runOne(prop, "quick", cfgT{"control:" + ctl.Name, core.LoadConfig{Dir: scratch}})
 	violated := map[string]bool{}
